@@ -166,7 +166,7 @@ func shrinkC18(w *c18W) []interface{} {
 		n.Stream = n.Stream[:len(n.Stream)/2]
 		out = append(out, n)
 	}
-	for i := len(w.Stream) - 1; i >= 0; i-- {
+	for i := len(w.Stream) - 1; i >= 0 && len(w.Stream) <= 300; i-- { // long runs shrink by halves only
 		n := cp()
 		n.Stream = append(n.Stream[:i], n.Stream[i+1:]...)
 		if n.RecvErrAt > i {
